@@ -196,7 +196,7 @@ func c10Case(w *core.Worker, i int) {
 		d := filepath.Join(w.Work, "crash")
 		_ = os.RemoveAll(d)
 		copyDir(base, d)
-	c10Link(d, tx.links)
+		c10Link(d, tx.links)
 		p := run(d, []string{"VERIF_CRASH_AT=" + at}, nil)
 		if p.Signal != 9 {
 			w.Inconclusive(fmt.Sprintf("crash at %s did not kill the process (%s)", at, p))
@@ -282,7 +282,7 @@ func c10Syscalls(w *core.Worker, tx c10Tx, base string, run func(string, []strin
 			d := filepath.Join(w.Work, "scrash")
 			_ = os.RemoveAll(d)
 			copyDir(base, d)
-	c10Link(d, tx.links)
+			c10Link(d, tx.links)
 			at := fmt.Sprintf("syscall:%s#%d", sc, n)
 			p := run(d, []string{"GOMAXPROCS=1"}, []string{"strace", "-f", "-o", "/dev/null", "-e", "trace=" + sc, "-e", fmt.Sprintf("inject=%s:signal=SIGKILL:when=%d", sc, n)})
 			if p.Signal != 9 && p.Code != 137 && p.Code != -1 {
